@@ -626,7 +626,57 @@ def _mut_helper(variant):
     return install
 
 
-MUTANTS = {}
+def _repair(world):
+    """Positive control: the smallest repairs of the defects the check reports on the as-is tree, applied in memory.
+    The monitor must accept every scenario with them (an over-strict monitor would not)."""
+    lhm, lcm = world.lhm, world.lcm
+    W = lhm.LighthouseMemHelper._ObjectWriter
+    R = lhm.LighthouseMemHelper._ObjectReader
+    CW = lcm.LighthouseConfigWriter
+    undo = []
+    w_write, r_read_all, cw_store = W.__dict__['write'], R.__dict__['read_all'], CW.__dict__['write_and_store_config']
+
+    def write(self, object_dict, write_done_cb):
+        try:
+            w_write(self, object_dict, write_done_cb)
+        except Exception:
+            if self._write_done_cb is write_done_cb:          # the first step raised: nothing was started
+                self._objects_to_write = None
+                self._write_done_cb = None
+            raise
+
+    def read_all(self, read_done_cb):
+        try:
+            r_read_all(self, read_done_cb)
+        except Exception:
+            if self._read_done_cb is read_done_cb:
+                self._read_done_cb = None
+                self._result = None
+                self._next_id = None
+            raise
+
+    def store(self, data_stored_cb, geos=None, calibs=None, system_type=None):
+        if self._data_stored_cb is not None:
+            raise Exception('Write already in prgress')
+        lh_mem = self._helper.geo_writer._write_fcn.__self__
+        if (geos is not None or calibs is not None) and lh_mem._write_finished_cb:
+            raise Exception('Write operation already ongoing.')           # before anything is changed (parameter!)
+        cw_store(self, data_stored_cb, geos=geos, calibs=calibs, system_type=system_type)
+
+    def received(self, packet):
+        if packet.type == self._cf.loc.LH_PERSIST_DATA:
+            if not packet.data:
+                self._write_failed_for_one_or_more_objects = True
+            self._next()
+
+    _patch(undo, W, 'write', write)
+    _patch(undo, R, 'read_all', read_all)
+    _patch(undo, CW, 'write_and_store_config', store)
+    _patch(undo, CW, '_received_location_packet', received)
+    return undo
+
+
+MUTANTS = {'_repair': _repair}
 for _v in ('no_guard', 'persist_before_calibs', 'persist_geo_only', 'cb_before_ack', 'ignore_write_failure', 'no_padding'):
     MUTANTS['cw_' + _v] = _mut_cw(_v)
 for _v in ('writer_forgets_failure', 'writer_cb_twice', 'reader_stops_at_failure', 'reader_key_off_by_one',
@@ -675,8 +725,10 @@ def fam_store(tier, rng):
                         continue
                     nw = (nbs if g is not None else 0) + (nbs if c is not None else 0)
                     pats = list(itertools.product((1, 0), repeat=nw))
-                    if len(pats) > 16:
-                        pats = pats[:1] + rng.sample(pats[1:], 15 if tier == 'quick' else 31)
+                    if tier == 'quick' and len(pats) > 6:
+                        pats = pats[:1] + rng.sample(pats[1:], 5)
+                    elif len(pats) > 16:
+                        pats = pats[:1] + rng.sample(pats[1:], 23)
                     for pat in pats:
                         for pk in (1, 0):
                             if pk == 0 and sum(pat) < nw - 1:
@@ -720,7 +772,7 @@ def fam_reads(tier, rng):
     for i in range(NCH):
         pats.append([0 if j == i else 1 for j in range(NCH)])
         pats.append([1 if j < i else 0 for j in range(NCH)])        # the firmware supports the first i base stations
-    for _ in range(40 if tier == 'quick' else 3000):
+    for _ in range(40 if tier == 'quick' else 1500):
         pats.append([rng.randint(0, 1) for _ in range(NCH)])
     out = []
     for op in ('rg', 'rc'):
@@ -780,7 +832,7 @@ def _rand_desc(rng, nbs, base):
 
 def fam_random(tier, rng):
     out = []
-    for i in range(300 if tier == 'quick' else 6000):
+    for i in range(300 if tier == 'quick' else 4000):
         nbs = rng.choice((1, 2, 2, 3, 4, 8, 16))
         steps = []
         nreq = 0
@@ -933,8 +985,20 @@ def signature(trace, clause, at):
     return '%s/%s' % (clause, e['e'])
 
 
-SIM_CFG = {('pack', 'wedge'): 'SIM_LhConfig.cfg', ('wedge',): 'SIM_LhConfig_wedge.cfg',
-           ('pack',): 'SIM_LhConfig_pack.cfg', (): 'SIM_LhConfig_none.cfg'}
+BUGSET = {('pack', 'wedge'): 'BugsAsIs', ('wedge',): 'BugsWedge', ('pack',): 'BugsPack', (): 'BugsNone'}
+
+
+def variant_cfg(cfg, as_is, scratch):
+    """SIM_/TOUR_LhConfig.cfg are written for the as-is tree (Bugs <- BugsAsIs); for a (partly) repaired tree the same
+    configuration with the matching bug set is written to the scratch directory."""
+    import os
+    if tuple(as_is) == ('pack', 'wedge'):
+        return cfg
+    text = open(os.path.join(tlc.SPEC_DIR, cfg)).read().replace('Bugs <- BugsAsIs', 'Bugs <- ' + BUGSET[tuple(as_is)])
+    path = os.path.join(scratch, cfg)
+    with open(path, 'w') as f:
+        f.write(text)
+    return path
 BUG_CFGS = ['wedge', 'pack', 'noguard', 'early_persist']
 
 
@@ -980,9 +1044,21 @@ def main(tier, seed, replay=None):
     out.extra['design_spec_variant_for_conformance'] = as_is or ['repaired']
 
     # 2. spec -> code: TLC behaviours of the design spec (variant = what the tree does) driven through the real classes
-    nsim = 150 if tier == 'quick' else 1500
-    rs, behs = tlc.simulate('MC_LhConfig.tla', SIM_CFG[tuple(as_is)], num=nsim, depth=70, seed=seed % 100000, timeout=1200)
-    out.add_tlc('%s (-simulate num=%d)' % (SIM_CFG[tuple(as_is)], nsim), rs)
+    import shutil
+    scratch = tlc.scratch_dir('x01cfg-')
+    try:
+        nsim = 150 if tier == 'quick' else 1500
+        rs, behs = tlc.simulate('MC_LhConfig.tla', variant_cfg('SIM_LhConfig.cfg', as_is, scratch), num=nsim, depth=70,
+                                seed=seed % 100000, timeout=1200)
+        out.add_tlc('SIM_LhConfig.cfg (-simulate num=%d)' % nsim, rs)
+        # ... and a transition tour of a small complete state graph (every edge at least once)
+        rt, g = tlc.dump_graph('MC_LhConfig.tla', variant_cfg('TOUR_LhConfig.cfg', as_is, scratch), timeout=900)
+        out.add_tlc('TOUR_LhConfig.cfg (-dump)', rt)
+    finally:
+        shutil.rmtree(scratch, ignore_errors=True)
+    paths, covered, total = tlc.tour(g, max_len=60, max_paths=500 if tier == 'quick' else None)
+    out.conformance['tour'] = {'states': len(g.states), 'edges': total, 'edges_covered': covered, 'paths': len(paths)}
+    behs += [[('Init', g.states[i])] + [(lab, g.states[dst]) for (lab, dst) in path] for (i, path) in paths]
     jobs = [scenario_from_behaviour(b) for b in behs if len(b) > 1]
     res = common.pmap(_replay_job, jobs, init=_init)
     sim_scs = [j[0] for j in jobs]
@@ -1052,9 +1128,9 @@ def main(tier, seed, replay=None):
 
     # 4. sensitivity: in-memory mutants (on scenarios the unchanged tree passes) and a corrupted trace
     good = [i for i in range(len(sim_scs), len(all_scs)) if i not in badset]
-    step = max(1, len(good) // (300 if tier == 'quick' else 1500))
+    step = max(1, len(good) // (200 if tier == 'quick' else 800))
     sub = [all_scs[i] for i in good[::step]]
-    names = sorted(MUTANTS)
+    names = sorted(n for n in MUTANTS if not n.startswith('_'))
     mtraces, owner = [], []
     for name in names:
         mt = run_scenarios(sub, mutant=name)
@@ -1071,6 +1147,20 @@ def main(tier, seed, replay=None):
         out.sensitivity['mutant:' + name] = '%d of %d traces rejected %s' % (n, len(sub), dict(sorted(clauses.items())))
         if not n:
             raise common.MachineryError('monitor did not reject in-memory mutant %s' % name)
+    # positive control: with the minimal repairs applied in memory, the scenarios the as-is tree fails (and the sample
+    # above) are accepted by the monitor and explained by the repaired design spec
+    if as_is:
+        rej = sorted(i for i in badset if i >= len(sim_scs))
+        ctl = [dict(all_scs[i], bugs=[]) for i in rej[::max(1, len(rej) // (300 if tier == 'quick' else 1500))]] + \
+              [dict(sc, bugs=[]) for sc in sub[::2]]
+        ct = run_scenarios(ctl, mutant='_repair')
+        o2 = common.Outcome('X01', tier, seed)
+        cbad, cdrift = judge(o2, ct, 'repair control', count=False)
+        out.sensitivity['control:in-memory repair'] = '%d of %d traces rejected, %d not explained by the repaired design spec' % (
+            len(cbad), len(ct), len(cdrift))
+        if cbad:
+            i, clause, at = cbad[0]
+            raise common.MachineryError('monitor rejects the repaired code: %s at %d in %r' % (clause, at, ctl[i]['steps']))
     gi = next(i for i in good if all_scs[i]['fam'] == 'store' and any(e['e'] == 'persist' for c in all_traces[i]['chunks'] for e in c['ev']))
     for what in ('drop-mw', 'flip-cb', 'drop-persist'):
         t0 = copy.deepcopy(all_traces[gi])
